@@ -195,6 +195,9 @@ class Evaluator:
         self.sites = None          # when a list: dicts {kind,node,term,pc} for calls / arithmetic / loops
         self.trace = None          # when a list: every call term evaluated is appended (with resolved upvars)
         self.conds = None          # when a list: every branch condition / match scrutinee / guard term
+        self.pc_incomplete = False  # an early exit inside a nested expression block: what follows it in the function runs under
+                                    # conditions (a disjunction over the block's branches) that self.pc cannot express
+        self._roots = set()         # ids of the root blocks of the bodies being evaluated
 
     # ------------------------------------------------------------ entry points
     def fn_env(self, path):
@@ -212,10 +215,16 @@ class Evaluator:
             return pat["name"]
         return "arg%d" % i
 
+    def _mark_root(self, path):
+        r = T.strip(self.prog.root(path))
+        if r.get("k") == "Block":
+            self._roots.add(id(r["b"]))
+
     def summary(self, path):
         """Return-value term of a function or closure analysed stand-alone (params symbolic)."""
         if path in self._summ:
             return self._summ[path]
+        self._mark_root(path)
         self._summ[path] = Tm("opaque", ("recursion:" + path,))
         env = self.fn_env(path)
         st = _State(env)
@@ -256,6 +265,8 @@ class Evaluator:
         """[site dicts] of one function family: calls, arithmetic, indexing and loops with their path conditions."""
         old = (self.trace, self.conds, self.sites)
         self.trace, self.conds, self.sites = [], [], []
+        self.pc_incomplete = False
+        self._mark_root(path)
         try:
             env = self.fn_env(path)
             st = _State(env)
@@ -281,6 +292,7 @@ class Evaluator:
         """(summary, [call terms], [condition terms]) of one function, closures explored, upvars resolved."""
         old = (self.trace, self.conds)
         self.trace, self.conds = [], []
+        self._mark_root(path)
         try:
             env = self.fn_env(path)
             st = _State(env)
@@ -339,6 +351,7 @@ class Evaluator:
             self.bind(pat, a, env)
         st = _State(env)
         base = len(self.pc)
+        self._mark_root(path)
         t = self.ev(self.prog.root(path), st, depth + 1)
         return self.with_returns(t, st.returns, base)
 
@@ -428,14 +441,14 @@ class Evaluator:
         if k in ("Binary",):
             t = Tm("bin", (e["op"], self.ev(e["l"], st, depth), self.ev(e["r"], st, depth)), e)
             if self.sites is not None:
-                self.sites.append({"kind": "bin", "node": e, "term": t, "pc": tuple(self.pc)})
+                self.sites.append({"kind": "bin", "node": e, "term": t, "pc": tuple(self.pc), "pc_incomplete": self.pc_incomplete})
             return t
         if k == "Logical":
             return Tm("logic", (e["op"], self.ev(e["l"], st, depth), self.ev(e["r"], st, depth)), e)
         if k == "Unary":
             t = Tm("un", (e["op"], self.ev(e["e"], st, depth)), e)
             if self.sites is not None:
-                self.sites.append({"kind": "un", "node": e, "term": t, "pc": tuple(self.pc)})
+                self.sites.append({"kind": "un", "node": e, "term": t, "pc": tuple(self.pc), "pc_incomplete": self.pc_incomplete})
             return t
         if k == "Cast":
             return Tm("cast", (e["ty"], self.ev(e["e"], st, depth)), e)
@@ -462,7 +475,7 @@ class Evaluator:
         if k == "Index":
             t = Tm("index", (self.ev(e["e"], st, depth), self.ev(e["index"], st, depth)), e)
             if self.sites is not None:
-                self.sites.append({"kind": "index", "node": e, "term": t, "pc": tuple(self.pc)})
+                self.sites.append({"kind": "index", "node": e, "term": t, "pc": tuple(self.pc), "pc_incomplete": self.pc_incomplete})
             return t
         if k == "If":
             return self.ev_if(e, st, depth)
@@ -482,7 +495,7 @@ class Evaluator:
             cur = self.ev(e["l"], st, depth)
             t = Tm("bin", (e["op"].replace("Assign", ""), cur, self.ev(e["r"], st, depth)), e)
             if self.sites is not None:
-                self.sites.append({"kind": "assignop", "node": e, "term": t, "pc": tuple(self.pc)})
+                self.sites.append({"kind": "assignop", "node": e, "term": t, "pc": tuple(self.pc), "pc_incomplete": self.pc_incomplete})
             self.assign(e["l"], t, st, depth)
             return Tm("tuple", (), e)
         if k == "Return":
@@ -548,7 +561,7 @@ class Evaluator:
                     st.env[vid] = Tm("mutated", (prev, eff), e)
                     st.assigned.setdefault(vid, []).append(eff)
         if self.sites is not None:
-            self.sites.append({"kind": "call", "node": e, "term": Tm("call", (name,) + tuple(args), e), "pc": tuple(self.pc)})
+            self.sites.append({"kind": "call", "node": e, "term": Tm("call", (name,) + tuple(args), e), "pc": tuple(self.pc), "pc_incomplete": self.pc_incomplete})
         if self.trace is not None:
             self.trace.append(Tm("call", (name,) + tuple(args), e))
             self.explore_hof(name, fn, args, depth)
@@ -717,7 +730,7 @@ class Evaluator:
                 return Tm("try", (inner,), e)
         if src.startswith("ForLoopDesugar"):
             if self.sites is not None:
-                self.sites.append({"kind": "forloop", "node": e, "term": None, "pc": tuple(self.pc), "env": dict(st.env)})
+                self.sites.append({"kind": "forloop", "node": e, "term": None, "pc": tuple(self.pc), "env": dict(st.env), "pc_incomplete": self.pc_incomplete})
             return self.ev_for(e, st, depth)
         scrut = self.ev(e["scrut"], st, depth)
         if self.conds is not None:
@@ -786,7 +799,7 @@ class Evaluator:
 
     def ev_loop(self, e, st, depth):
         if self.sites is not None:
-            self.sites.append({"kind": "loop", "node": e, "term": None, "pc": tuple(self.pc), "env": dict(st.env)})
+            self.sites.append({"kind": "loop", "node": e, "term": None, "pc": tuple(self.pc), "env": dict(st.env), "pc_incomplete": self.pc_incomplete})
         assigned = _assigned_vars(e["body"])
         s2 = st.fork()
         s2.in_loop = True
@@ -803,6 +816,7 @@ class Evaluator:
 
     def ev_block(self, b, st, depth):
         pushed = 0
+        attached = False
         try:
             for s in b["stmts"]:
                 if s["k"] == "Expr":
@@ -829,11 +843,18 @@ class Evaluator:
                     else:
                         self.bind(s["pat"], Tm("opaque", ("uninit",)), st.env)
             if "tail" in b:
-                return self.ev(b["tail"], st, depth)
+                v = self.ev(b["tail"], st, depth)
+                if pushed and id(b) not in self._roots:
+                    # the block's value is only produced when its early exits were not taken: keep that with the value
+                    attached = True
+                    return Tm("assume", (v, tuple(self.pc[-pushed:])))
+                return v
             return Tm("tuple", ())
         finally:
             for _ in range(pushed):
                 self.pc.pop()
+            if pushed and id(b) not in self._roots and not attached:
+                self.pc_incomplete = True
 
 
 def _diverges(e):
@@ -1220,4 +1241,7 @@ def prune_nested(t, known=None, depth=0, known_not=None):
         return Tm("adt", (t.a[0], t.a[1], fs), t.n)
     if t.k == "phi":
         return phi([prune_nested(x, known, depth + 1, known_not) for x in t.a])
+    if t.k == "assume":
+        # on the returned value the conditions are already spelled out by the conditionals rebuilt around the early exits
+        return prune_nested(t.a[0], known, depth + 1, known_not)
     return t
